@@ -1,33 +1,36 @@
 """C06 — symbolic equality, hashing and ordering obey their algebraic laws."""
 import functools, json, math, os, sys
 from harness.lib import tr as trlib
-from harness.translators import type_order
+from harness.translators import type_order, compare_dispatch
 
 META = dict(
     id='C06',
     model_run='PG.Model.Compare.run',
     model_targets=['Model/Compare.vo'],
-    instance_obligations=['generated_table_ok (Proofs/CompareInstance.v: ranks_ok Gen.TypeOrder.tbl = true, vm_compute, re-checked on the table regenerated from the current base.py)'],
-    technique=('Coq proof over an executable model of pg.eq/ne/lt/gt/hash (normal form + lexicographic tree order) + type-order table regenerated '
-               'from base.py by a fail-closed ast translator + differential correspondence on pairs/triples/sorts + the laws as a direct oracle'),
+    instance_obligations=['generated_table_ok (Proofs/CompareInstance.v: ranks_ok Gen.TypeOrder.tbl = true, vm_compute, re-checked on the table regenerated from the current base.py)',
+                          'generated_dispatch_ok (Proofs/CompareInstance.v: dispatch_ok Gen.CompareDispatch.eq_branches lt_branches = true, vm_compute, re-checked on the branch order regenerated from the current base.eq / base.lt)'],
+    technique=('Coq proof over an executable model of pg.eq/ne/lt/gt/hash and the object operators (normal form + lexicographic tree order) + two fail-closed ast translators '
+               '(type-order table of _type_order; branch order of base.eq / base.lt with fingerprinted branch bodies and helper methods) whose outputs are re-proved adequate each run '
+               '+ differential correspondence on pairs/triples/sorts + the laws as a direct oracle, incl. an exhaustive small-scope triple sweep'),
     design_ref='DESIGN.md §5 C06; design/C06.md',
     level_text=('Theorems (all values of the quantifier: None, MISSING, bool/int/finite float, str, list/pg.List, tuples of one comparable family, '
-                'dict/pg.Dict with unique str/int keys in any order, objects of any classes, any nesting depth): eq is an equivalence, ne its negation, '
+                'dict/pg.Dict with unique str/int keys (bool / integral float keys as their int) in any order, objects of any classes incl. different classes sharing a __qualname__, any nesting depth): eq is an equivalence, ne its negation, '
                 'eq implies equal hash pre-image, lt never raises, trichotomy, transitivity, irreflexivity, gt is flip, sorting never raises and returns a sorted permutation, '
-                'object ==/!=/hash() agree. Tie: the type-order table is regenerated every run and ranks_ok re-proved; model and implementation are run on the same '
-                'pairs/triples/sort inputs (>= 40 % equal up to representation); the laws themselves are evaluated on the real objects on every case.'),
-    level_note=('Trusted: Coq kernel; translator harness/translators/type_order.py; extraction (ExtrOcamlBasic) cross-checked against vm_compute; CPython hash() is a function of the ==-class of a leaf '
-                'and of the element hashes for tuple/frozenset. Modelled, not verified: identity shortcut `left is right`, user-overridden sym_eq/sym_lt, callables, sets, NaN/inf (excluded), '
-                'tuples containing containers or mutually incomparable primitives (outside the quantifier), two different classes with the same __qualname__.'),
+                'object ==/!=/hash() agree, the `left is right` shortcut is invisible, eq_f / lt_f are the interpretation of the regenerated branch order. Tie: the type-order table and the branch order of base.eq / base.lt are regenerated every run and ranks_ok / dispatch_ok re-proved; model and implementation are run on the same '
+                'pairs/triples/sort inputs (>= 40 % equal up to representation); the laws themselves are evaluated on the real objects on every case, and on all ~1.7 million ordered triples of a 119-value small-scope set.'),
+    level_note=('Trusted: Coq kernel; translators harness/translators/type_order.py and compare_dispatch.py; extraction (ExtrOcamlBasic) cross-checked against vm_compute; CPython hash() is a function of the ==-class of a leaf '
+                'and of the element hashes for tuple/frozenset. Not modelled: identity between nested sub-objects (only top-level `left is right`), user-overridden sym_eq/sym_lt, callables, sets (Python `<` on sets is the subset order, not total), NaN/inf (excluded), '
+                'tuples containing containers or mutually incomparable primitives (outside the quantifier), non-integral float dict keys, the id-based hash of classes that do not opt in.'),
     rule=('a case is an ordered pair, a triple, or a list to sort, of value trees; distinct by the canonical trees; a pair is non-trivial when at least one side is a container/object '
           'or the two leaves have different Python types'),
-    trusted_base=['translator harness/translators/type_order.py (fail-closed ast reader of _type_order/_key_order)',
+    trusted_base=['translator harness/translators/type_order.py (fail-closed ast reader of _type_order)',
+                  'translator harness/translators/compare_dispatch.py (fail-closed ast reader of the branch order of base.eq / base.lt; branch bodies, ne, gt, _key_order, callable_eq, Object.sym_eq/sym_lt/sym_hash/__eq__/__ne__/__hash__, Dict/List.sym_hash/__hash__ must keep the fingerprints of the text the model was transcribed from)',
                   'extraction: ExtrOcamlBasic only; ocaml/main.ml lexer/printer; cross-checked against vm_compute on a sample',
                   'CPython: hash(x) depends only on the ==-class of a leaf x; hash of tuple/frozenset depends only on the element hashes'],
     assumptions=['NaN and infinities are excluded (Python == is not reflexive on NaN)',
-                 'classes used have pairwise different __qualname__ and do not override sym_eq/sym_lt/sym_hash'],
+                 'classes used do not override sym_eq/sym_lt/sym_hash; the class uid of the model is the position of the class in the (module, id(class)) order among classes of one __qualname__'],
 )
-GENERATED = {'Gen/TypeOrder.v': type_order.translate}
+GENERATED = {'Gen/TypeOrder.v': type_order.translate, 'Gen/CompareDispatch.v': compare_dispatch.translate}
 
 # ------------------------------------------------------------------------------------------------
 # value trees (exactly the wire format of Model/Compare.v)
@@ -779,6 +782,7 @@ def oracle(case):
 
 def run(ctx):
   info = ctx.regen('Gen/TypeOrder.v', type_order.translate)
+  ctx.regen('Gen/CompareDispatch.v', compare_dispatch.translate)
   ctx.build()
   classes()
   cases = make_cases(ctx)
